@@ -25,7 +25,10 @@ import LitexProofs.Wishbone.InterconnectSoc
   through C13's handler model, imported read-only) and `SocRBus` (remappers of `add_master(region=…)`).  There the
   `DisjointDec` hypothesis is DISCHARGED for every bus the glue accepts (`soc_accepted_disjoint_decoders_partial`,
   `glue_history_disjoint_decoders_partial`, via C13's `LitexProofs/Soc/AcceptedDisjoint.lean`), and a restricted
-  master is shown to stay inside its region (`soc_remapped_master_confined`).
+  master is shown to stay inside its region (`soc_remapped_master_confined`).  `SocABus` adds `add_adapter`'s
+  byte<->word addressing conversion (C14's `convM2S`/`convS2M`, imported read-only): `soc_adapter_route_partial`,
+  `soc_adapter_exact_partial` (a byte-addressed master's cycle at byte address `a` reaches exactly the slave whose
+  region contains `a`, at the right slave-local address).
 -/
 namespace Litex.C06
 open Litex Litex.Wishbone
